@@ -42,7 +42,7 @@ var (
 	vStd    = variant{Name: "std", Tags: "verif"}
 	vRace   = variant{Name: "race", Tags: "verif", Build: []string{"-race"}, NoLim: true, Par: 8}
 	vPurego = variant{Name: "purego", Tags: "verif,purego"}
-	vNoAVX  = variant{Name: "noavx", Tags: "verif", Env: []string{"GODEBUG=cpu.avx512f=off,cpu.avx2=off,cpu.avx512vl=off,cpu.avx512bw=off,cpu.avx512dq=off"}}
+	vNoAVX  = variant{Name: "noavx", Tags: "verif", Env: []string{"GODEBUG=cpu.avx512f=off,cpu.avx2=off,cpu.avx512vl=off,cpu.avx512bw=off"}}
 	vAsan   = variant{Name: "asan", Tags: "verif", Build: []string{"-asan"}, NoLim: true, Par: 8, Tiers: "thorough"}
 	vRaceT  = variant{Name: "race", Tags: "verif", Build: []string{"-race"}, NoLim: true, Par: 8, Tiers: "thorough"}
 )
